@@ -432,7 +432,12 @@ fn build_collection_of_referenced_type_evaluator(type_ref: String, av_evaluator:
       let mut evaluated_values = Values::default();
       if let Some(evaluator) = evaluators.get(&type_ref) {
         for item_value in values.as_vec() {
-          evaluated_values.add(evaluator(item_value, evaluators));
+          let evaluated_value = evaluator(item_value, evaluators);
+          if evaluated_value.is_null() && !item_value.is_null() {
+            // like in collections of other types, an item that does not conform makes the whole collection not conforming
+            return value_null!("item '{}' does not conform to type '{}'", item_value, type_ref);
+          }
+          evaluated_values.add(evaluated_value);
         }
         check_allowed_items(evaluated_values, av_evaluator.as_ref())
       } else {
